@@ -140,11 +140,62 @@ def r72(F):
         r.inst("%s:u8-as-char" % name.split("::")[-1], fn.where(bad[0] if bad else casts[0][0]), not bad,
                "%d cast(s) used for comparison / classification only" % len(casts) if not bad else
                "a byte cast to char is pushed into the token text: \"é\" becomes \"Ã©\"")
+    # the mirror image: a count of characters used as a count of bytes.  The tokenizer's input iterator yields bytes; advancing it
+    # (nth / skip / take / seek) by `chars().count()` of a piece of the source stops short on every multi-byte character
+    for name, fn in sorted(F.fns.items()):
+        if fn.derived or fn.file != "src/tokenizer/mod.rs":
+            continue
+        o = None
+        for b, t in fn.calls():
+            last = callee(t).split("::")[-1]
+            if last in ("nth", "skip", "take", "seek", "advance_by", "nth_back") and len(t["args"]) >= 2:
+                o = o or Origins(fn)
+                labs = o.at(t["args"][1], b)
+                via_chars = any(c.endswith("Chars<'a> as core::iter::traits::iterator::Iterator>::count") or
+                                (c.endswith("::count") and "Chars" in c) for c in calls_in(labs)) or \
+                    (any(c.endswith("::count") for c in calls_in(labs)) and any(c.endswith("<impl str>::chars") for c in calls_in(labs)))
+                if via_chars:
+                    r.inst("%s:char-count-as-byte-offset" % name.split("::")[-1], fn.where(b), False,
+                           "the byte iterator is advanced by a number of characters (chars().count()): after \"é\" the next token is "
+                           "scanned from inside the literal")
     r.note("%d u8->char casts inspected" % n_cast)
     # the string recogniser was analysed even if it has no cast left
     eq = F.fn(TK + "escapequoted")
     pushes = [b for b, t in eq.calls() if callee(t) in SINKS]
     r.inst("escapequoted:analysed", eq.where(), True, "%d accumulation sites" % len(pushes), nontrivial=False)
+    return r
+
+
+def r72s(F):
+    r = RuleResult("R72s", "the tokenizer sees the file as it is on disk",
+                   "in the file loader (Environment::get_ops_for_path, add_ops_for_path_and_content, and the language server's "
+                   "analyze) the text handed to parse / tokenize is what was read, passed through nothing that rewrites it (replace, "
+                   "trim, lines, to_lowercase, ..): a multi-line string literal in a CRLF file keeps its carriage returns and every "
+                   "token offset is an offset into the file", floor=2)
+    REWRITERS = ("replace", "replacen", "trim", "trim_start", "trim_end", "trim_matches", "to_lowercase", "to_uppercase", "lines", "split",
+                 "split_whitespace", "escape_default", "escape_debug", "repeat", "truncate", "retain", "strip_prefix", "strip_suffix",
+                 "from_utf8_lossy", "to_ascii_lowercase", "to_ascii_uppercase", "remove", "insert", "insert_str", "push", "push_str")
+    PARSE = ("ucglib::parse::parse", "ucglib::tokenizer::tokenize")
+    n = 0
+    for name, fn in sorted(F.fns.items()):
+        if fn.derived or not fn.file.startswith("src/") or "::test" in name or fn.file.startswith("src/parse") or fn.file.startswith("src/tokenizer"):
+            continue
+        sites = [(b, t) for b, t in fn.calls() if callee(t) in PARSE]
+        if not sites:
+            continue
+        o = Origins(fn)
+        for b, t in sites:
+            labs = o.at(t["args"][0], b)
+            cs = calls_in(labs)
+            from_file = any(c.endswith(("read_to_string", "fs::read")) for c in cs)
+            rew = sorted({c.split("::")[-1] for c in cs if c.split("::")[-1] in REWRITERS and ("str" in c or "String" in c or "string" in c)})
+            if not from_file:
+                continue            # text that does not come from a file (a template's embedded expression, the repl's line)
+            n += 1
+            r.inst("%s:source-unmodified" % name.split("::")[-1].replace("{closure#0}", name.split("::")[-2]), fn.where(b), not rew,
+                   "the text read from the file reaches the parser unchanged" if not rew else
+                   "the source text passes through %s before it is tokenized: token text and offsets no longer describe the file "
+                   "(a string literal spanning CRLF lines loses its carriage returns)" % ", ".join(rew))
     return r
 
 
@@ -352,4 +403,4 @@ def r74l(F):
     return r
 
 
-RULES = [r71, r72, r73, r74, r86, r74l]
+RULES = [r71, r72, r73, r74, r86, r74l, r72s]
